@@ -540,6 +540,38 @@ example :
     let v : V := .pair (.some (.i 2)) (.list [.i 4, .i 0])
     conv 128 A B v = some v ∧ conv 128 B A v = some v := ⟨by rfl, by rfl⟩
 
+/-- **A conversion is offered exactly when the lattice reports inclusion**: `into_data_type` (model `imageT`) succeeds on a pair
+of types iff `is_subset_of` (model `DTLat.subset`, the function `Props/C11Lat.lean` is about) answers yes — the two modelled
+APIs, each compared with the code by its own stream, cannot drift apart. -/
+theorem imageT_isSome_eq_subset (cap : Nat) : ∀ (A B : DT), (imageT cap A B).isSome = DTLat.subset cap A B := by
+  intro A
+  induction A with
+  | int a => intro B; cases B <;> simp [imageT, DTLat.subset] <;> split <;> simp_all
+  | opt a => intro B; cases B <;> simp [imageT, DTLat.subset] <;> split <;> simp_all
+  | pair a b iha ihb =>
+    intro B
+    cases B with
+    | pair c d =>
+      have h1 := iha c; have h2 := ihb d
+      simp only [imageT, DTLat.subset]
+      cases hu1 : imageT cap a c <;> cases hu2 : imageT cap b d <;> simp_all
+    | _ => simp [imageT, DTLat.subset]
+  | list t sz ih =>
+    intro B
+    cases B with
+    | list u sz2 =>
+      have h1 := ih u
+      simp only [imageT, DTLat.subset]
+      cases hu1 : imageT cap t u <;> simp_all <;> split <;> simp_all
+    | _ => simp [imageT, DTLat.subset]
+
+/-- hence a conversion is only ever offered into a type that contains every value of the source (below the capacity regime,
+as for `type_subset_sound`): nothing has to be approximated to fit. -/
+theorem imageT_only_into_supersets (cap k : Nat) (hc : 2 ≤ cap) (hk : k * k < cap) (A B I : DT) (wa : C11.WFT cap k A) (wb : C11.WFT cap k B)
+    (h : imageT cap A B = some I) : ∀ v, C11.mem A v → C11.mem B v := by
+  have hs : DTLat.subset cap A B = true := by rw [← imageT_isSome_eq_subset, h]; rfl
+  exact C11.type_subset_sound cap k hc hk A B wa wb hs
+
 /-- **Refused, not approximated**: a leaf outside the target's range makes the whole conversion fail. -/
 theorem conv_refuses_leaf (cap : Nat) (a b : Ivs) (n : Int) (h : containsV cap b n = false) :
     conv cap (.int a) (.int b) (.i n) = none ∧ conv cap (.int a) (.opt b) (.i n) = none ∧ conv cap (.opt a) (.opt b) (.some (.i n)) = none := by
